@@ -136,7 +136,7 @@ def run_replay(path):
     return 1 if rc == 1 else 0
 
 
-def conclude(pid, tier, seed, mod, results, wall, write_evidence=True):
+def conclude(pid, tier, seed, mod, results, wall, write_evidence=True, extra=None):
     known = load_known()
     errors = [r for r in results if r.status == "error"]
     fails = [r for r in results if r.status == "fail"]
@@ -166,19 +166,37 @@ def conclude(pid, tier, seed, mod, results, wall, write_evidence=True):
                   f["location"].get("file", "?"), f["location"].get("line", "?")))
         print("VIOLATION property=%s replay=%s%s" % (pid, path, "" if reproduced else " no-failing-input-found"))
         rc = 1
+    extra_viol, extra_cov = extra if extra else ([], {})
+    for n, v in enumerate(extra_viol):
+        k = None
+        for kk in known.get("findings", []):
+            if kk.get("property") == pid and kk.get("obligation") and kk["obligation"] in v["what"]:
+                k = kk
+        if k:
+            print("KNOWN-FINDING: property=%s %s" % (pid, k.get("what", v["what"])))
+            continue
+        os.makedirs(driver.REPLAYS, exist_ok=True)
+        path = os.path.join(driver.REPLAYS, "%s-%s-%d.json" % (pid, re.sub(r"[^A-Za-z0-9_.-]", "_", v.get("group", "custom")), n))
+        with open(path, "w") as f:
+            json.dump({"property": pid, "group": v.get("group"), "failed_obligations": [{"obligation": v.get("group"), "description": v["what"], "status": "FAILURE", "location": ""}],
+                       "verifier_counterexample_inputs": [], "native_replay": {"reproduced_on_real_code": bool(v.get("reproduced")), "log": v.get("log", v["what"])},
+                       "how_to_rerun": "cd /verif && ./check.py %s" % pid}, f, indent=1)
+        print("  " + v["what"])
+        print("VIOLATION property=%s replay=%s%s" % (pid, path, "" if v.get("reproduced") else " no-failing-input-found"))
+        rc = 1
     if errors and rc == 0:
         for r in errors:
             print("UNDECIDED group %s: %s" % (r.group.name, r.error.strip()[-1200:]))
         rc = 2
     if write_evidence:
-        evidence(pid, tier, seed, mod, results, wall, len([v for v in violations if not getattr(v[0], "reach", False)]), known_hits)
+        evidence(pid, tier, seed, mod, results, wall, len([v for v in violations if not getattr(v[0], "reach", False)]) + len(extra_viol), known_hits, extra_cov)
     proofs = [r for r in results if r.status == "pass" and r.group.kind == "proof" and not getattr(r, "reach", False)]
     print("%s %s: %d groups, %d obligations discharged, %d violation(s), %d undecided, %.0fs" %
           (pid, tier, len(results), sum(r.discharged for r in proofs), len(violations), len(errors), wall))
     return rc
 
 
-def evidence(pid, tier, seed, mod, results, wall, nviol, known_hits):
+def evidence(pid, tier, seed, mod, results, wall, nviol, known_hits, extra_cov=None):
     os.makedirs(driver.EVIDENCE, exist_ok=True)
     main = [r for r in results if not getattr(r, "reach", False)]
     proof = [r for r in main if r.group.kind == "proof"]
@@ -242,6 +260,8 @@ def evidence(pid, tier, seed, mod, results, wall, nviol, known_hits):
         "wall_s": round(wall, 1),
         "violations": nviol,
     }
+    if extra_cov:
+        doc["coverage"].update(extra_cov)
     if doc["level"] == "proof" and obligations == 0:
         doc["coverage"]["evaluations"] = max(1, len(main))
         doc["coverage"]["distinct_nontrivial"] = 0
